@@ -22,14 +22,60 @@ def digit_class(ascii_only, nd):
     return z3.Union(*[z3.Range(chr(a), chr(b)) for a, b in nd])
 
 
+_FOLD = None
+
+
+def fold_set(c, flags):
+    """all characters that the one-character pattern `c` matches under re.IGNORECASE (decided by the re module itself on the
+    candidates that share a lower / upper / case-folded form with `c`; with re.ASCII only ASCII letters fold)"""
+    global _FOLD
+    pat = re.compile(re.escape(c), flags & (re.IGNORECASE | re.ASCII | re.UNICODE))
+    if flags & re.ASCII:
+        cands = {c, c.lower(), c.upper()} if c.isascii() else {c}
+    else:
+        if _FOLD is None:
+            _FOLD = {}
+            for x in range(0x110000):
+                ch = chr(x)
+                for k in {ch.lower(), ch.upper(), ch.casefold()}:
+                    if len(k) == 1:
+                        _FOLD.setdefault(k, set()).add(ch)
+        cands = {c}
+        frontier = {c}
+        for _ in range(3):
+            nxt = set()
+            for y in frontier:
+                for k in {y, y.lower(), y.upper(), y.casefold()}:
+                    if len(k) == 1:
+                        nxt |= _FOLD.get(k, set()) | {k}
+            frontier = nxt - cands
+            cands |= nxt
+    return sorted(x for x in cands if len(x) == 1 and pat.fullmatch(x))
+
+
 def to_z3re(pattern, flags, groups=None, nd=None):
     """-> z3 regex; `groups` (optional dict) receives group number -> z3 regex of that group;
     nd: code point ranges of category Nd of the interpreter that runs the library (what \\d means without re.ASCII)"""
-    if flags & ~(re.ASCII | re.UNICODE | re.DOTALL):
+    if flags & ~(re.ASCII | re.UNICODE | re.DOTALL | re.IGNORECASE):
         raise Unsupported(f"regex flags {flags}")
     tree = sre_parse.parse(pattern, flags)
     ascii_only = bool(flags & re.ASCII)
     dotall = bool(flags & re.DOTALL)
+    icase = bool(flags & re.IGNORECASE)
+
+    def lit(cp):
+        if not icase:
+            return z3.Re(chr(cp))
+        fs = fold_set(chr(cp), flags)
+        return z3.Re(fs[0]) if len(fs) == 1 else z3.Union(*[z3.Re(x) for x in fs])
+
+    def rng(lo, hi):
+        if not icase:
+            return z3.Range(chr(lo), chr(hi))
+        if hi - lo > 512:
+            raise Unsupported("large character range under re.IGNORECASE")
+        chars = sorted({x for cp in range(lo, hi + 1) for x in fold_set(chr(cp), flags)})
+        return z3.Union(*[z3.Re(x) for x in chars]) if len(chars) > 1 else z3.Re(chars[0])
 
     def category(av):
         if av is C.CATEGORY_DIGIT:
@@ -38,9 +84,9 @@ def to_z3re(pattern, flags, groups=None, nd=None):
 
     def cls_item(op, av):
         if op is C.LITERAL:
-            return z3.Re(chr(av))
+            return lit(av)
         if op is C.RANGE:
-            return z3.Range(chr(av[0]), chr(av[1]))
+            return rng(av[0], av[1])
         if op is C.CATEGORY:
             return category(av)
         raise Unsupported(f"regex class item {op}")
@@ -53,9 +99,9 @@ def to_z3re(pattern, flags, groups=None, nd=None):
 
     def node(op, av):
         if op is C.LITERAL:
-            return z3.Re(chr(av))
+            return lit(av)
         if op is C.NOT_LITERAL:
-            return z3.Diff(ANYCHAR(), z3.Re(chr(av)))
+            return z3.Diff(ANYCHAR(), lit(av))
         if op is C.ANY:
             return ANYCHAR() if dotall else z3.Diff(ANYCHAR(), z3.Re("\n"))
         if op is C.IN:
